@@ -62,3 +62,12 @@ Fixpoint instr_blocks (i : instr) : list subgraph :=
 
 Definition refs_ordered_l (p : prog) (groups : list (N * N)) (h : N) : bool :=
   chain_ok groups h 0 0 (flat_map instr_blocks (p_body p)).
+
+(* an instruction (a block, a declaration, or a whole loop with everything in it) that never writes
+   `buf` of h *)
+Fixpoint instr_free_b (h : N) (i : instr) : bool :=
+  match i with
+  | IRun sg => buf_free_b sg h
+  | IDecl hs => negb (nmem h hs)
+  | IGate _ _ body swaps => forallb (instr_free_b h) body && negb (nmem h swaps)
+  end.
